@@ -189,6 +189,50 @@ def seeded(pid_filter, seed):
     return results
 
 
+def neutral(pid_filter, seed):
+    """Behaviour-preserving refactorings: the suite must still pass and every listed
+    check must stay green."""
+    from .neutral import NEUTRAL
+    results = []
+    for m in NEUTRAL:
+        d = scratch_copy(m['name'])
+        try:
+            rec = {'name': m['name'], 'checks': {}}
+            try:
+                apply_subst(d, m)
+                for old, new in m.get('also', []):
+                    apply_subst(d, dict(m, old=old, new=new, count=1))
+            except HarnessError as e:
+                rec['note'] = str(e)
+                rec['ok'] = None
+                results.append(rec)
+                print(json.dumps(rec), flush=True)
+                continue
+            failed, tail = run_suite(d)
+            rec['tests_failed'] = sorted(failed)[:3]
+            ok = not failed
+            for pid in m['pids']:
+                if pid_filter and pid != pid_filter:
+                    continue
+                rc, out, wall = run_check_on(d, pid, seed=seed)
+                rec['checks'][pid] = rc
+                if rc != 0:
+                    ok = False
+                    rec.setdefault('alarms', []).append(
+                        (re.findall(r'^(?:under python -O[^:]*: )?violation (\S+)', out, re.M) or
+                         [out[-200:]])[0])
+                mm = re.search(r'VIOLATION property=\S+ replay=(\S+)', out)
+                if mm and os.path.dirname(mm.group(1)).endswith('replays') and os.path.exists(mm.group(1)):
+                    os.unlink(mm.group(1))
+            rec['ok'] = ok
+            results.append(rec)
+            print(json.dumps(rec), flush=True)
+        finally:
+            shutil.rmtree(d, ignore_errors=True)
+    shutil.rmtree('/tmp/tsmut.%d.ev' % os.getpid(), ignore_errors=True)
+    return results
+
+
 def determinism(pid_filter, seed, jobs, n=512):
     """Each sampled (property, idx): twice in this process, in two fresh
     interpreters with different PYTHONHASHSEEDs.  Digests must be identical."""
@@ -261,6 +305,12 @@ def main(kind, pid, seed, jobs):
                    'killed': len([r for r in cl if r['killed']]),
                    'missed': [r['seeded'] for r in cl if not r['killed']]}
         ok = not summary['missed']
+    elif kind == 'neutral':
+        res = neutral(pid, seed)
+        bad = [r['name'] for r in res if r['ok'] is False]
+        summary = {'refactorings': len(res), 'all_checks_green': len([r for r in res if r['ok']]),
+                   'alarmed': bad, 'not_applicable_any_more': [r['name'] for r in res if r['ok'] is None]}
+        ok = not bad
     elif kind == 'determinism':
         res, ok = determinism(pid, seed, jobs)
         summary = {'ok': ok}
